@@ -81,6 +81,8 @@ type State struct {
 	calls     []string        // abstract call log (effects)
 	stops     []*stopPoint    // pending join blocks (state merging)
 	strSrc    map[string]*strSrc
+	freshList []*Term         // references allocated in this activation, in order
+	escaped   map[string]bool // ... of which these may be reachable from outside
 }
 
 func (s *State) top() *Frame { return s.frames[len(s.frames)-1] }
@@ -110,6 +112,13 @@ func (s *State) clone() *State {
 	n.frames = make([]*Frame, len(s.frames))
 	for i, f := range s.frames {
 		n.frames[i] = f.clone()
+	}
+	n.freshList = append([]*Term(nil), s.freshList...)
+	if s.escaped != nil {
+		n.escaped = make(map[string]bool, len(s.escaped))
+		for k := range s.escaped {
+			n.escaped[k] = true
+		}
 	}
 	if s.strSrc != nil {
 		n.strSrc = make(map[string]*strSrc, len(s.strSrc))
@@ -402,6 +411,7 @@ func (x *Exec) alloc(st *State) *Term {
 	x.assume(st, Eq(c, r), "alloc")
 	c = WithBounds(c, bigI(1), nil)
 	st.fresh[c.s] = true
+	st.freshList = append(st.freshList, c)
 	return c
 }
 
@@ -487,10 +497,81 @@ func (x *Exec) heapGet(st *State, key, leafSort string) *Term {
 
 // havocAll forgets everything about the heap.
 func (x *Exec) havocAll(st *State, why string) {
+	x.havocAllBut(st, why, false)
+}
+
+// havocAllBut forgets the heap. With keepLocals, the contents of objects allocated in this
+// activation that have not escaped (never passed to a call, stored into the heap or captured by
+// a closure) are kept: code outside this function cannot reach them.
+func (x *Exec) havocAllBut(st *State, why string, keepLocals bool) {
+	old := st.heap
 	x.nfresh++
 	st.epoch = x.nfresh
 	st.heap = map[string]*Term{}
 	x.note("havoc-all: " + why)
+	if !keepLocals {
+		return
+	}
+	var keep []*Term
+	for _, r := range st.freshList {
+		if !st.escaped[r.s] {
+			keep = append(keep, r)
+		}
+	}
+	if len(keep) == 0 || len(keep) > 24 {
+		return
+	}
+	for _, k := range sortedKeys(old) {
+		t := old[k]
+		if strings.HasPrefix(k, "G|") {
+			continue
+		}
+		if len(t.s) > 64 {
+			// name the old array: it is mentioned once per kept object below
+			c := x.freshConst(st, "hpo", t.sort)
+			x.assume(st, app(SBool, "=", c, t), "def-heap")
+			t = c
+		}
+		na := x.declare(st, fmt.Sprintf("H%d_%s", st.epoch, x.heapSym(k)), t.sort)
+		cur := na
+		for _, r := range keep {
+			cur = Store(cur, r, Select(t, r))
+		}
+		st.heap[k] = cur
+	}
+}
+
+// markEscaped records every object identity reachable directly from v as escaped.
+func (x *Exec) markEscaped(st *State, v *Val) {
+	if v == nil {
+		return
+	}
+	if st.escaped == nil {
+		st.escaped = map[string]bool{}
+	}
+	switch v.K {
+	case kPtr:
+		st.escaped[v.L.Base.s] = true
+	case kSlice:
+		st.escaped[v.Arr.s] = true
+	case kIface:
+		st.escaped[v.Ptr.s] = true
+	case kScalar:
+		if v.Typ != nil {
+			switch v.Typ.Underlying().(type) {
+			case *types.Map, *types.Chan:
+				st.escaped[v.T.s] = true
+			}
+		}
+	case kStruct, kArray, kTuple:
+		for _, f := range v.F {
+			x.markEscaped(st, f)
+		}
+	case kFunc:
+		for _, b := range v.Bind {
+			x.markEscaped(st, b)
+		}
+	}
 }
 
 func (x *Exec) havocKey(st *State, key, leafSort string) {
